@@ -24,7 +24,8 @@ SimpleEsc(c) == CASE c = 34 -> 34 [] c = 92 -> 92 [] c = 47 -> 47 [] c = 98 -> 8
 
 \* ---- string token decoder: state [m, out, ucs, k, hi]
 \*  m: "open" (expect opening quote) | "body" | "esc" | "hex" | "done" | "bad"
-DecInit == [m |-> "open", out |-> <<>>, ucs |-> 0, k |-> 0, hi |-> 0]
+DecInitQ(q, perm) == [m |-> "open", out |-> <<>>, ucs |-> 0, k |-> 0, hi |-> 0, q |-> q, perm |-> perm, rawctl |-> FALSE]
+DecInit == DecInitQ(QUOTE, FALSE)
 Flush(s) == IF s.hi # 0 THEN [s EXCEPT !.out = s.out \o REPL, !.hi = 0] ELSE s
 Unit(s, cu) ==   \* a complete \uXXXX code unit
     IF s.hi # 0 /\ IsLo(cu) THEN [s EXCEPT !.out = s.out \o Utf8(Combine(s.hi, cu)), !.hi = 0, !.m = "body"]
@@ -33,11 +34,11 @@ Unit(s, cu) ==   \* a complete \uXXXX code unit
          ELSE IF IsLo(cu) THEN [f EXCEPT !.out = f.out \o REPL, !.m = "body"]
          ELSE [f EXCEPT !.out = f.out \o Utf8(cu), !.m = "body"]
 DecStep(s, c) ==
-    CASE s.m = "open" -> IF c = QUOTE THEN [s EXCEPT !.m = "body"] ELSE [s EXCEPT !.m = "bad"]
-      [] s.m = "body" -> IF c = QUOTE THEN [Flush(s) EXCEPT !.m = "done"]
+    CASE s.m = "open" -> IF c = s.q THEN [s EXCEPT !.m = "body"] ELSE [s EXCEPT !.m = "bad"]
+      [] s.m = "body" -> IF c = s.q THEN [Flush(s) EXCEPT !.m = "done"]
                          ELSE IF c = BSL THEN [s EXCEPT !.m = "esc"]
-                         ELSE IF c < 32 THEN [s EXCEPT !.m = "bad"]
-                         ELSE LET f == Flush(s) IN [f EXCEPT !.out = Append(f.out, c)]
+                         ELSE IF c < 32 /\ (~s.perm \/ c = 0) THEN [s EXCEPT !.m = "bad"]
+                         ELSE LET f == Flush(s) IN [f EXCEPT !.out = Append(f.out, c), !.rawctl = (f.rawctl \/ c < 32)]
       [] s.m = "esc" -> IF c = 117 THEN [s EXCEPT !.m = "hex", !.ucs = 0, !.k = 0]
                         ELSE IF SimpleEsc(c) >= 0 THEN LET f == Flush(s) IN [f EXCEPT !.out = Append(f.out, SimpleEsc(c)), !.m = "body"]
                         ELSE [s EXCEPT !.m = "bad"]
